@@ -44,7 +44,7 @@ _TRANSPARENT_EXACT = {
     "std::boxed::Box::<T>::new": [0], "std::sync::Arc::<T>::new": [0], "std::rc::Rc::<T>::new": [0],
     "std::mem::take": [0], "std::mem::replace": [0, 1],
     "std::convert::identity": [0],
-    "std::iter::once": [0],
+    "std::iter::once": [0], "std::iter::repeat": [0], "std::iter::repeat_n": [0],
     "std::slice::<impl [T]>::to_vec": [0],
     "alloc::slice::<impl [T]>::to_vec": [0],
 }
